@@ -435,6 +435,8 @@ class GeopackageCache(TileCacheBase):
 
 
 class GeopackageLevelCache(TileCacheBase):
+    # the level caches are created with_timestamps=False
+    supports_timestamp = False
 
     def __init__(self, geopackage_dir, tile_grid, table_name, timeout=30, wal=False, coverage=None,
                  directory_permissions=None, file_permissions=None):
